@@ -204,6 +204,79 @@ def run(ctx: Ctx) -> None:
         ctx.sample({"rule": "R8.8", "class": name, "reference": rx, "intended": rname, "counterexample": cex}) if name in ("hex float", "char literal") else None
     ctx.exhaustive = True
 
+    # ------------------------------------------------------------------ R8.9 (bounds depend on the tier)
+    _preferred_match(ctx, lm, thorough=ctx.tier == "thorough")
+
+
+RED_ALPHA = "0178afxXbBeEpPuUlL.+-'\"\\nz_ "
+
+
+def words(R: Auto, maxlen: int, cap: int):
+    """Words of L(R) of length <= maxlen over the reduced alphabet, shortest first."""
+    from collections import deque
+    alpha = [c for c in RED_ALPHA]
+    out = []
+    dq = deque([(None, "")])
+    seen = {(None, "")}
+    while dq and len(out) < cap:
+        st, w = dq.popleft()
+        if st is not None and R.accepts_at(st, END):
+            out.append(w)
+        if len(w) >= maxlen:
+            continue
+        for c in alpha:
+            for q in R.step(st, c):
+                if q in R.useful() and (q, w + c) not in seen:
+                    seen.add((q, w + c))
+                    dq.append((q, w + c))
+    # one entry per distinct word
+    return sorted(set(out), key=lambda x: (len(x), x))
+
+
+def _preferred_match(ctx: Ctx, lm: LexModel, thorough: bool = True) -> None:
+    """R8.9: for every word of the reference literal grammar up to a length bound, the match the
+    backtracking engine *prefers* for the intended rule is the whole word (not a shorter alternative),
+    and PLY's first matching rule is the intended one.  Bounded-exhaustive over a reduced alphabet."""
+    from ..btmatch import match_len
+    lexmod = lm.lexer
+    flags = lm.reflags
+    ctx.rule("R8.9", "leftmost-first preference: every reference literal up to the length bound is taken whole by the intended rule (ordered alternation inside rules)", minimum=15)
+    total = 0
+    firsts = {r.name: r.auto(flags).can_start_with() for r in lm.rules}
+    for name, rx, rname in REFERENCE:
+        if name in ("blank run", "newline run", "line comment", "block comment"):
+            continue
+        R = Auto(rx, 0, name=name)
+        if thorough:
+            ws = words(R, 7 if "string" not in name and "char" not in name else 6, 4000)
+        else:
+            ws = words(R, 5, 250)
+        rule = lm.rule(rname)
+        bad = None
+        for w in ws:
+            for tail in ("", " ", ";"):
+                text = w + tail
+                # PLY: first rule in priority order whose regex matches at position 0
+                winner = None
+                for r in lm.rules:
+                    if text[0] not in firsts[r.name]:
+                        continue
+                    m = match_len(r.regex, flags, text)
+                    if m:
+                        winner = (r.name, m)
+                        break
+                total += 1
+                if winner != (rname, len(w)):
+                    # identifiers that spell a keyword are re-typed, still t_NAME; literal prefixes (u8, L...) are names when no quote follows
+                    bad = (w, tail, winner)
+                    break
+            if bad:
+                break
+        ctx.ob("R8.9", f"lexer:PlyLexer.{rname}|{name}: preferred match is the whole literal", bad is None,
+               msg=("" if bad is None else f"for the {name} {bad[0]!r} (followed by {bad[1]!r}) the lexer's first match is {bad[2]}: the literal is split or mis-classified because an earlier alternative/rule is preferred"),
+               node=rule.node, mod=lexmod, detail={"words": len(ws)})
+    ctx.extra["preferred_match_evaluations"] = total
+
 
 def check_nlacc(ctx: Ctx, rid: str, lm: LexModel) -> None:
     """NLACC: newline accounting of every lexer rule (shared with C10)."""
